@@ -89,6 +89,8 @@ void vd_tick(void);                    /* a case finished (hang detection) */
 /* ------------------------------------------------------------------ reporting */
 typedef struct {
     const char *prop;        /* property id for VIOLATION lines */
+    const char *mode;        /* driver mode (recorded in replay files) */
+    const char *argsline;    /* driver arguments (recorded in replay files) */
     const char *outdir;      /* where replay files go */
     long cases, nontrivial, drift, violations, known;
     long by_kind[64];
